@@ -250,9 +250,14 @@ def enc_table(T):
     return [[enc_str(k), [enc_str(a) for a in als], 1 if ex else 0] for k, als, ex in T]
 
 
-def make_licensing(T, form='sym'):
-    """Build a real Licensing from (key, aliases, flag) entries in one of three representations."""
+def make_licensing(T, form=None):
+    """Build a real Licensing from (key, aliases, flag) entries in one of three representations. Without an explicit form the
+    table itself decides (a checksum of its text, so that a replay builds the same kind of object): one table in three is
+    handed over as plain user objects, which the library wraps in LicenseSymbolLike."""
     le = imp()
+    if form is None:
+        import zlib
+        form = 'obj' if zlib.crc32(repr([(k, list(a), bool(e)) for k, a, e in T]).encode('utf-8')) % 3 == 0 else 'sym'
     if form == 'str':
         return le.Licensing([k for k, _, _ in T])
     if form == 'sym':
